@@ -1814,20 +1814,21 @@ where
                         }
                     }
                     _ => {
-                        // Unusual case of multiple groups sharing a name: the backref should try each in turn.
-                        // Lower to alternations of backreferences. Reverse to keep it right-associative: a | (b | (c | d))...
+                        // Unusual case of multiple groups sharing a name: the backref must match
+                        // the group which participated. Groups sharing a name are in different
+                        // alternatives, so at most one of them has participated, and a backref
+                        // to a group which has not matches the empty string. So lower to the
+                        // catenation of backreferences to each of them. (An alternation would
+                        // succeed emptily on the first group which did not participate.)
                         let icase = self.flags.icase;
-                        let backrefs =
-                            group_indices
-                                .iter()
-                                .rev()
-                                .map(|group_index| ir::Node::BackRef {
-                                    group: *group_index + 1,
-                                    icase,
-                                });
-                        backrefs
-                            .reduce(|right, left| ir::Node::Alt(Box::new(left), Box::new(right)))
-                            .unwrap()
+                        let backrefs = group_indices
+                            .iter()
+                            .map(|group_index| ir::Node::BackRef {
+                                group: *group_index + 1,
+                                icase,
+                            })
+                            .collect();
+                        ir::Node::Cat(backrefs)
                     }
                 };
                 Ok(node)
